@@ -328,8 +328,32 @@ Definition run1 (cfg : config) (o : op) (s t : ty) (p : Z) : list Z :=
   | None => [-3; 0]
   end.
 
+(* The canonical output is the run-length encoding of the per-payload pairs (type code, d), as
+   triples [count; type code; d]: d is the result minus the source payload when the result is of an
+   integer type (codes 2..9), the result payload otherwise.  (An exhaustive range of an integer type
+   converted to an integer type is then three numbers instead of two per value.) *)
+Definition is_int_code (tc : Z) : bool := (2 <=? tc) && (tc <=? 9).
+Definition delta (tc p w : Z) : Z := if is_int_code tc then w - p else w.
+Definition undelta (tc p d : Z) : Z := if is_int_code tc then d + p else d.
+
+Definition pair_of (l : list Z) : Z * Z := match l with [a; b] => (a, b) | _ => (-3, 0) end.
+Definition enc1 (cfg : config) (o : op) (s t : ty) (p : Z) : Z * Z :=
+  let r := pair_of (run1 cfg o s t p) in (fst r, delta (fst r) p (snd r)).
+
+Definition pair_eqb (a b : Z * Z) : bool := (fst a =? fst b) && (snd a =? snd b).
+Fixpoint rle (l : list (Z * Z)) : list (nat * (Z * Z)) :=
+  match l with
+  | [] => []
+  | x :: r => match rle r with
+              | (n, y) :: t => if pair_eqb x y then (S n, y) :: t else (1%nat, x) :: (n, y) :: t
+              | [] => [(1%nat, x)]
+              end
+  end.
+Definition flatten3 (l : list (nat * (Z * Z))) : list Z :=
+  flat_map (fun e => [Z.of_nat (fst e); fst (snd e); snd (snd e)]) l.
+
 Definition run_with (cfg : config) (c : case) : list Z :=
-  flat_map (run1 cfg (c_op c) (c_src c) (c_tgt c)) (payloads c).
+  flatten3 (rle (map (enc1 cfg (c_op c) (c_src c) (c_tgt c)) (payloads c))).
 Definition run (c : case) : list Z := run_with gen_cfg c.
 
 (* ---- the property as a decidable predicate on an output ------------------------------------------
@@ -439,15 +463,22 @@ Definition check1 (o : op) (s t : ty) (p tc w : Z) : bool :=
     end
   end.
 
-Fixpoint check_list (o : op) (s t : ty) (ps : list Z) (out : list Z) : bool :=
-  match ps, out with
-  | [], [] => true
-  | p :: ps', tc :: w :: rest => check1 o s t p tc w && check_list o s t ps' rest
-  | _, _ => false
+(* walk the payloads along the run-length encoded output: [cur] payloads are still covered by the
+   current triple (tc, d) *)
+Fixpoint check_rle (o : op) (s t : ty) (ps : list Z) (cur tc d : Z) (rest : list Z) : bool :=
+  match ps with
+  | [] => (cur =? 0) && match rest with [] => true | _ => false end
+  | p :: ps' =>
+    if 0 <? cur then check1 o s t p tc (undelta tc p d) && check_rle o s t ps' (cur - 1) tc d rest
+    else match rest with
+         | n :: tc' :: d' :: rest' =>
+           (0 <? n) && check1 o s t p tc' (undelta tc' p d') && check_rle o s t ps' (n - 1) tc' d' rest'
+         | _ => false
+         end
   end.
 
 Definition oracle (c : case) (out : list Z) : bool :=
-  check_list (c_op c) (c_src c) (c_tgt c) (payloads c) out.
+  check_rle (c_op c) (c_src c) (c_tgt c) (payloads c) 0 0 0 out.
 
 Definition known (c : case) : Z := 0.
 
